@@ -16,7 +16,7 @@ RULE = (
     "roots (inferred), bare name, absolute root, relative root} with the cwd at the root's parent; cwd-relative deep target "
     "x {bare name, relative root, absolute root} with the cwd at the workspace. Oracles: identity (full name, version, "
     "port-ID, source_file_path, source_file_path_to_root) equals the R-path parse of the path; all designations that "
-    "succeed agree; designations documented to work must succeed; malformed names must be rejected with "
+    "succeed agree; designations documented to work must succeed; malformed names (27 classes incl. numbers that are not plain decimal) must be rejected with "
     "InvalidDefinitionError. Non-trivial: path depth >=1 or a malformed name; distinct by (layout, designation)."
 )
 ASSUMPTIONS = [
@@ -53,7 +53,9 @@ def gen_layout(rng):
                                 "empty-short", "version-0-0", "version-256", "port-too-big", "bad-short", "reserved-short", "bad-namespace", "hex-version",
                                 "empty-port", "empty-port-sidecar", "empty-major", "empty-minor", "trailing-dot-field",
                                 "short-trailing-space", "short-trailing-tab", "short-trailing-nbsp", "short-leading-space", "short-inner-space",
-                                "short-hyphen", "short-trailing-newline"])
+                                "short-hyphen", "short-trailing-newline",
+                                "underscore-version", "plus-version", "space-version", "unicode-digit-version", "minus-zero-version",
+                                "underscore-port", "plus-port", "space-port", "unicode-digit-port"])
     return {"prefix": prefix, "root": root, "ns": nsp, "short": short, "ver": ver, "port": port, "ext": ext, "malformed": malformed}
 
 
@@ -79,6 +81,25 @@ def file_name(lay):
         parts[-2] = "1e1"
     elif m == "hex-version":
         parts[-1] = "0x1"
+    elif m == "underscore-version":
+        # the numbers of a file name are plain decimal numbers: what int() of some language would also take is not one of them
+        parts[-1 if mi >= 10 or ma < 10 else -2] = "1_0" if (mi < 10 and ma < 10) else "%s_%s" % (str(max(ma, mi))[0], str(max(ma, mi))[1:])
+    elif m == "plus-version":
+        parts[-1] = "+" + parts[-1]
+    elif m == "space-version":
+        parts[-2] = " " + parts[-2]
+    elif m == "unicode-digit-version":
+        parts[-1] = "".join(chr(0x0660 + int(c)) for c in parts[-1])   # ARABIC-INDIC DIGITs
+    elif m == "minus-zero-version":
+        parts[-2:] = ["1", "-0"]
+    elif m == "underscore-port":
+        parts = ["1_234", short, str(ma), str(mi)]
+    elif m == "plus-port":
+        parts = ["+1234", short, str(ma), str(mi)]
+    elif m == "space-port":
+        parts = ["1234 ", short, str(ma), str(mi)]
+    elif m == "unicode-digit-port":
+        parts = ["\uff11\uff12", short, str(ma), str(mi)]             # FULLWIDTH DIGITs
     elif m == "empty-short":
         parts = ([str(port)] if port is not None else []) + ["", str(ma), str(mi)]
     elif m == "empty-port":
